@@ -104,6 +104,10 @@ Definition src2_cache_delete (code_ : pyval -> pyval) (sync_ : pyval -> pyval) (
    | BErr => PErr
    end))))).
 
+(* saml2/cache.py:Cache.subjects, lines 183-188 *)
+Definition src2_cache_subjects (decode_ : pyval -> pyval) (v_self : pyval) : pyval :=
+  (p2_listcomp (p2_keys (p2_attr v_self "_db")) ktrue (fun v_c => (py_bind v_c (fun a_1 => (decode_ a_1))))).
+
 (* saml2/population.py:Population.stale_sources_for_person, lines 29-41 *)
 Definition src2_stale_sources (now_ : pyval) (parse_time : pyval -> pyval) (code_ : pyval -> pyval) (v_self : pyval) (v_name_id : pyval) (v_sources : pyval) : pyval :=
   (let k_5 := fun v_sources =>
